@@ -118,7 +118,9 @@ def decide(ctx, pid, tier, seed, t0, cmd, quiet=False, write=True):
         for line in out:
             print(line)
         print("%s: %s  (%d obligations, %d rules, %.2fs)" % (
-            pid, {0: "HOLDS (all obligations discharged)", 1: "VIOLATED",
+            pid, {0: "HOLDS (all obligations discharged)" if not
+                  known_reported else "HOLDS apart from %d listed known "
+                  "finding(s)" % len(known_reported), 1: "VIOLATED",
                   2: "ANALYSIS-ERROR"}[status], len(obs),
             len(spec["rules"]), wall))
     return status, out
